@@ -153,16 +153,12 @@ func (g *aspGen) listExpr(t AspType, d int) ex {
 	case k < 8:
 		// literal with computed elements
 		n := g.n(1, 3, "nelem")
-		parts := make([]string, n)
-		for i := range parts {
-			el := g.expr(et, d-1)
-			if et.container() {
-				g.markAliased(el)
-			}
-			parts[i] = arg(el)
+		els := make([]ex, n)
+		for i := range els {
+			els[i] = g.elemAliased(et, d-1)
 		}
-		e := atom("[" + strings.Join(parts, ", ") + "]")
-		e.fresh, e.ln, e.nonASCII = true, n, true
+		e := listLit(els)
+		e.nonASCII = true
 		return e
 	case k < 13:
 		return g.comprehension(t, d)
@@ -180,12 +176,18 @@ func (g *aspGen) listExpr(t AspType, d int) ex {
 			e.ln = l.ln + r.ln
 		}
 		e.nonASCII = l.nonASCII || r.nonASCII
+		if et.container() {
+			e.cpart, e.fold = l.cpart || r.cpart, l.fold || r.fold
+		}
 		return e
 	case k < 20:
 		l := g.derange(g.listExpr(t, d-1))
 		g.feat("list_repeat")
 		e := g.bin("*", pMul, l, atom(strconv.Itoa(g.n(0, 3, "rep"))))
 		e.nonASCII = l.nonASCII
+		if et.container() {
+			e.cpart, e.fold = l.cpart, l.fold
+		}
 		return e
 	case k < 23:
 		l := g.derange(g.listExpr(t, d-1))
@@ -222,6 +224,9 @@ func (g *aspGen) listExpr(t AspType, d int) ex {
 		g.feat("reversed")
 		e := call("reversed", arg(l))
 		e.ln, e.nonASCII = l.ln, l.nonASCII
+		if et.container() {
+			e.cpart, e.fold = l.cpart, l.fold
+		}
 		return e
 	case k < 33 && (et.K == AspInt || et.K == AspStr):
 		l := g.derange(g.listExpr(t, d-1))
@@ -301,15 +306,15 @@ func (g *aspGen) dictExpr(t AspType, d int) ex {
 		n := g.n(1, 3, "nitem")
 		start := g.n(0, len(dictKeys)-1, "key0")
 		parts := make([]string, n)
+		cp, fold := false, false
 		for i := range parts {
-			el := g.expr(et, d-1)
-			if et.container() {
-				g.markAliased(el)
-			}
+			el := g.elemAliased(et, d-1)
+			cp = cp || el.cpart
+			fold = fold || el.fold
 			parts[i] = quote(dictKeys[(start+i)%len(dictKeys)], false) + ": " + arg(el)
 		}
 		e := atom("{" + strings.Join(parts, ", ") + "}")
-		e.fresh, e.nonASCII = true, true
+		e.fresh, e.nonASCII, e.cpart, e.fold = true, true, cp, fold
 		return e
 	case k < 13:
 		g.feat("dict_comprehension")
